@@ -52,6 +52,8 @@ def install_stubs(opts, fail_first_eigh=False, canonical_diagonal=False):
             L = np.array([symx.var(f"lam{c}_{i}") for i in range(n)], dtype=object)
             for i in range(n - 1):
                 CTX.assume(L[i].n <= L[i + 1].n, control=False)  # LAPACK syevd: ascending eigenvalues
+            if log.get("floor") is not None:
+                CTX.assume(L[0].n >= SymReal.lift(log["floor"]).n, control=False)  # PSD input: spectrum of the decomposed matrix is bounded below
             Q = np.empty((n, n), dtype=object)
             for i in range(n):
                 for j in range(n):
